@@ -38,6 +38,7 @@ def run_fit(
     container="list",
     prior=None,
     replace=(),
+    returns=None,
 ):
     """tcfg: {epochs, starting_epoch, pos_bs, neg_bs, k, lr, time}
 
@@ -74,7 +75,8 @@ def run_fit(
         flavours.append("class")
     retire_flags = [{"v": False} for _ in range(n_wit)]
     wits = [
-        make_witness(run, i, handler=on_event, preempt=pre, snapshot=snapshot, flavour=flavours[i], retired=retire_flags[i])
+        make_witness(run, i, handler=on_event, preempt=pre, snapshot=snapshot, flavour=flavours[i], retired=retire_flags[i],
+                     ret=(returns[i] if returns and i < len(returns) else None))
         for i in range(n_wit)
     ]
     callbacks = list(cbs_before) + wits[:1] + list(cbs_between) + wits[1:] + list(cbs_after)
